@@ -176,7 +176,9 @@ pub fn format_date(
 
 pub fn format_highres_date(t: f64, offset: Option<i32>) -> String {
     let offset = offset.unwrap_or(0);
-    let datetime = Utc.timestamp_opt(t as i64 + offset as i64, 0).unwrap();
+    let datetime = Utc
+        .timestamp_opt(t.floor() as i64 + offset as i64, 0)
+        .unwrap();
     let highres_seconds = format!("{:.9}", t - t.floor())[1..].to_string();
     // Sign, hours and minutes are formatted separately: with truncating
     // division a negative offset that is not a whole number of hours would
